@@ -13,6 +13,7 @@ import (
 	"os"
 	"runtime"
 	"sort"
+	"strings"
 	"testing"
 	"time"
 
@@ -304,6 +305,21 @@ func (c *hCtx) checkFastVsSeq() {
 			return b
 		},
 	}
+	// one sample repeated s times: every item fails uniformity, some fail the pass count — the NAMED item must agree
+	for sd := int64(0); sd < 6; sd++ {
+		sd := sd
+		streams[fmt.Sprintf("repeated-block-%d", sd)] = func(n int) []byte {
+			blk := goodBytes(c.req.Seed*100+sd, 2500)
+			if n > 100000 {
+				blk = goodBytes(c.req.Seed*100+sd, 125000)
+			}
+			out := make([]byte, n)
+			for i := range out {
+				out[i] = blk[i%len(blk)]
+			}
+			return out
+		}
+	}
 	var names []string
 	for k := range streams {
 		names = append(names, k)
@@ -328,6 +344,33 @@ func (c *hCtx) checkFastVsSeq() {
 				return
 			}
 			break
+		}
+	}
+	// repeated blocks for which the sequential twin rejects on a PASS COUNT of some later item although item 1 already
+	// fails uniformity: the two criteria are checked in different loops, so the named item is sensitive to loop structure
+	for _, w := range workflows(c.req.Budget) {
+		if w.name != "PeriodDetectFast" {
+			continue
+		}
+		seq := all[w.seqOf]
+		found := 0
+		for sd := int64(0); sd < 80 && found < 4; sd++ {
+			blk := goodBytes(c.req.Seed*1000+sd, 2500)
+			data := make([]byte, w.bytes)
+			for i := range data {
+				data[i] = blk[i%len(blk)]
+			}
+			a := runWF(seq.f, &sliceReader{b: data, failAt: -1}, limitFor(w))
+			if a.ok || !strings.Contains(a.err, "/") {
+				continue
+			}
+			found++
+			c.resp.Cases[name]++
+			b := runWF(w.f, safeReader(&sliceReader{b: data, failAt: -1}), limitFor(w))
+			if a.ok != b.ok || itemOf(a.err) != itemOf(b.err) {
+				c.report(name, map[string]interface{}{"fast": w.name, "stream": "2500-byte block repeated 20 times", "block_seed": c.req.Seed*1000 + sd}, b.String(), "same verdict and failing item as "+seq.name+": "+a.String())
+				return
+			}
 		}
 	}
 	for _, w := range workflows(c.req.Budget) {
@@ -513,12 +556,26 @@ func (c *hCtx) checkThresholdQ() {
 // C11
 func (c *hCtx) checkSingle() {
 	name := "single-detect"
+	lens := []int{39, 40, 41, 1279, 1280, 1281}
 	for nb := 0; nb <= 4096; nb += 1 + nb/16 {
+		lens = append(lens, nb)
+	}
+	for _, nb := range lens {
 		for rep := 0; rep < 3; rep++ {
 			data := goodBytes(c.req.Seed+int64(nb*7+rep), nb+8)
 			if rep == 1 {
 				for i := range data {
 					data[i] &= 0x77
+				}
+			}
+			if rep == 2 {
+				// constant byte patterns: verdicts that differ between m = 2, 4 and 8 (e.g. 0x1B is uniform for m = 2 only)
+				pat := []byte{0x1B, 0x55, 0xF0, 0x69}[nb%4]
+				if nb == 40 || nb == 39 || nb == 41 || nb == 1280 || nb == 1279 {
+					pat = 0x1B
+				}
+				for i := range data {
+					data[i] = pat
 				}
 			}
 			r := &sliceReader{b: data, failAt: -1}
